@@ -38,7 +38,10 @@ BATCHES = [{"type": "local"}, {"type": "slurm", "host": "h", "bank": "b", "queue
            # blank / falsy values are data too (an empty bank, zero nodes, a switch that is off)
            {"type": "slurm", "host": "h", "bank": "", "queue": "q", "nodes": 0, "reservation": ""},
            {"type": "lsf", "host": "", "bank": "b", "queue": "q", "exclusive": False, "qos": None},
-           {"type": "flux", "host": "h", "bank": "b", "queue": "q", "args": {}, "uri": ""}]
+           {"type": "flux", "host": "h", "bank": "b", "queue": "q", "args": {}, "uri": ""},
+           # values are data, not shell text: nothing in them is expanded on the way
+           {"type": "slurm", "host": "$HOSTNAME", "bank": "$HOME", "queue": "${PATH}", "reservation": "~"},
+           {"type": "lsf", "host": "h", "bank": "$USER-$HOME", "queue": "%PATH%", "nodes": "$(NODES)"}]
 
 
 def snapshot_case(ctx):
